@@ -8,9 +8,19 @@ package multiswarm
 //@ func (*multiSwarm).Close
 //@   noframe
 //@   requires mt != nil && inv(mt.tells)
+//@   requires mt.asker != nil ==> inv(mt.asker.asks)
 //@   ensures [hubclosed] closed(old(mt.tells.closed))
+//@   ensures [askhubclosed] old(mt.asker) != nil ==> closed(old(mt.asker.asks.closed))
 //@   fnspec Close:
 //@     ensures inv(mt.tells)
-//@     preserves mt.tells.closed
+//@     ensures mt.asker != nil ==> inv(mt.asker.asks)
+//@     preserves mt.tells.closed, mt.asker, mt.asker.asks.closed
 //@   loop 0:
 //@     invariant inv(mt.tells) && mt.tells.closed == old(mt.tells.closed)
+//@     invariant mt.asker == old(mt.asker) && (mt.asker != nil ==> inv(mt.asker.asks) && mt.asker.asks.closed == old(mt.asker.asks.closed))
+
+// the swarm built by NewSecureAsk owns an ask hub as well: its Close (the multiSwarm's) must reach it
+//@ func NewSecureAsk
+//@   noframe
+//@   before call ComposeSecureAskSwarm:
+//@     assert [ownsaskhub] ms != nil && ms.asker == ma && ma != nil
